@@ -150,6 +150,25 @@ Definition checksums_ok (tw : list N) (out : list buf) : bool :=
 Definition headers_valid_ok (tw : list N) (out : list buf) : bool :=
   descriptors_ok tw out && lengths_all_ok tw out && checksums_ok tw out.
 
+(* [holdsb] is the conjunction of the five clauses (Gro.Holds.holdsb_clauses); it is written with the
+   kernel's segments computed once, because it is evaluated on every generated batch. *)
+Definition udp_order_segs (keep : list N -> bool) (inp : list buf) (segs0 : list (list N)) : bool :=
+  let ins := filter keep (map b_pkt inp) in
+  let segs := filter keep segs0 in
+  forallb (fun p => match udp_flow p with
+                    | Some k => lists_eqb (map canon (filter (in_flow k) segs)) (map canon (filter (in_flow k) ins))
+                    | None => true end) ins.
+Fixpoint csums_ok2 (wr : list buf) (sl : list (list (list N))) : bool :=
+  match wr, sl with
+  | b :: wr', s :: sl' => (negb (is_gso b) || forallb (fun p => ip_csum_ok p && l4_csum_ok p) s) && csums_ok2 wr' sl'
+  | _, _ => true
+  end.
 Definition holdsb (inp : list buf) (tw : list N) (out : list buf) : bool :=
-  bookkeeping_ok inp tw out && passthrough_ok inp tw out && floweq_ok inp tw out
-  && udp_order_ok inp tw out && headers_valid_ok tw out.
+  let wr := written tw out in
+  let sl := map (fun b => kernel_segment (b_hdr b) (b_pkt b)) wr in
+  let segs := concat sl in
+  (nodupb tw && forallb (fun i => i <? len (map b_cap inp)) tw && (length segs =? length inp)%nat)
+  && passthrough_ok inp tw out
+  && perm_eqb (map canon segs) (map (fun b => canon (b_pkt b)) inp)
+  && udp_order_segs (fun _ => true) inp segs
+  && (forallb descriptor_ok (filter is_gso wr) && forallb lengths_ok (filter is_gso wr) && csums_ok2 wr sl).
